@@ -200,6 +200,65 @@ func propC04(c *ctx) error {
 			res.violate(rc.toJ(), nt.want, J{"st": impl.St, "out": impl.text(), "err": trunc(impl.Err, 160)}, "nested range / struct items: loop variables not bound as specified")
 		}
 	}
+	// nested loops whose INNER collection is empty for some outer items and non-empty for others, in every order (inner
+	// lengths 0..2 for three outer items; slices, strings and single-entry maps inside): the inner element is rendered once
+	// per inner item of THIS outer item, with its loop variables bound, whatever the previous outer item's collection was
+	for mask := 0; mask < 27; mask++ {
+		lens := []int{mask % 3, (mask / 3) % 3, mask / 9}
+		for _, inner := range []string{"slice", "string", "map"} {
+			var groups []val
+			var want strings.Builder
+			want.WriteString("<ul>")
+			for gi, n := range lens {
+				var ys val
+				var items, keys []string
+				switch inner {
+				case "slice":
+					var xs []int
+					for k := 0; k < n; k++ {
+						xs = append(xs, 10*(gi+1)+k)
+						items = append(items, fmt.Sprint(10*(gi+1)+k))
+						keys = append(keys, fmt.Sprint(k+1))
+					}
+					ys = vIntSlice(xs...)
+				case "string":
+					str := "ab"[:n]
+					ys = vStr(str)
+					for k := 0; k < n; k++ {
+						items = append(items, fmt.Sprint(str[k]))
+						keys = append(keys, fmt.Sprint(k+1))
+					}
+				default:
+					if n >= 1 { // single-entry maps only (iteration order is not specified)
+						ys = vMap(kv{"k", vInt(gi)})
+						items, keys = []string{fmt.Sprint(gi)}, []string{"k"}
+					} else {
+						ys = vMap()
+					}
+				}
+				groups = append(groups, vMap(kv{"ys", ys}, kv{"name", vStr(fmt.Sprint("g", gi))}))
+				want.WriteString("<li>")
+				for k := range items {
+					want.WriteString("<b>" + keys[k] + ":" + items[k] + fmt.Sprint("g", gi) + "</b>")
+				}
+				want.WriteString(fmt.Sprint("<i>", gi+1, "</i></li>"))
+			}
+			want.WriteString("</ul>")
+			tpl := `<ul><li :range="gi, g : groups"><b :range="j, y : g.ys" :text="${j}:${y}${g.name}">o</b><i :text="${gi}">o</i></li></ul>`
+			rc := &renderCase{Files: [][2]string{{"t", tpl}}, Tpl: "t", Data: vMap(kv{"groups", vAnySlice(groups...)}).j}
+			impl, _, err := compareRender(c, rc, true)
+			if err != nil {
+				return err
+			}
+			res.eval("nested-empty|"+jstr(rc.Data), true, J{"inner_lengths": lens, "inner": inner})
+			res.S3Checked++
+			res.count("nested_range_with_empty_inner")
+			if impl.St != "ok" || impl.text() != want.String() {
+				res.violate(rc.toJ(), want.String(), J{"st": impl.St, "out": impl.text(), "err": trunc(impl.Err, 160)},
+					"nested loops: after an outer item whose inner collection is empty, the inner element of a later outer item is not rendered once per item with its variables bound")
+			}
+		}
+	}
 	// maps whose keys are NOT strings (outside the model's value universe: native oracle only): the first variable is the
 	// key itself, with its Go type — usable in arithmetic and comparisons — and every entry is rendered exactly once
 	{
